@@ -145,6 +145,7 @@ C01_CATALOGUE = {
         ("sid0", "sid0", [("1ch", ["bc"], None, None), ("2ch", ["bc", "cd"], None, None), ("3ch", None, None, None)], True),
         ("sid1@default", "sid1", [("1ch", ["bc"], None, None), ("2ch", None, None, None)], True),
         ("sid1@cm", "sid1", [("1ch", ["bc"], None, _CM), ("2ch", None, None, _CM)], True),
+        ("sid3", "sid3", [("3ch", None, None, None)], True),
     ],
     "half3": [
         ("sh00", "sh00", [("1ch", ["cd"], None, None), ("2ch", ["bc", "bd"], None, None), ("3ch", None, None, None)], True),
